@@ -41,6 +41,8 @@ def classify_problem(r, text, structured):
     if r is None:
         if "pure insertion" in text:
             return "C03"
+        if "is not read back as one" in text:
+            return ("C13", "C06")
         if "second --check" in text or "second edit" in text:
             return "C06"
         return "C11"
@@ -363,9 +365,47 @@ def directive_packs(v, tier, cfg_tier=None):
     return packs, solo_groups
 
 
+def ignored_is_invisible(binary, v):
+    """A statement under breadlog:ignore is skipped: a project with such a statement (even one that carries a large
+    reference) is numbered exactly like the same project without it - same IDs for the other statements, same lock."""
+    import re as _re
+    for structured in (False, True):
+        for directive in ("// breadlog:ignore", "/* BREADLOG:IGNORE */"):
+            for carried in ("", "500", "4000000000"):
+                if structured:
+                    ign = 'info!(%s"ignored one");' % (("ref = %s; " % carried) if carried else "")
+                else:
+                    ign = 'info!("%signored one");' % (("[ref: %s] " % carried) if carried else "")
+                block = "    %s\n    %s\n" % (directive, ign)
+                out = {}
+                for with_block in (True, False):
+                    P = bl.Project(structured=structured, tag="ig")
+                    try:
+                        P.write_sources({"a.rs": "fn a() {\n    info!(\"first\");\n%s    warn!(\"second\");\n}\n" % (block if with_block else ""),
+                                         "b.rs": "fn b() {\n    error!(\"third\");\n}\n"})
+                        r = bl.run_breadlog(binary, P.config_path, tmpdir=P.tmp, shim=False, timeout=60)
+                        src = {k: d.decode("utf-8", "replace") for k, d in P.read_sources().items()}
+                        ids = {}
+                        for name in ("first", "second", "third"):
+                            m = _re.search(r'(?:ref = (\d+)[;,] "|\[ref: (\d+)\] )' + name, src["a.rs"] + src["b.rs"])
+                            ids[name] = (m.group(1) or m.group(2)) if m else None
+                        out[with_block] = {"exit": r.exit_class, "ids": ids, "lock": P.get_lock(),
+                                           "ignored_untouched": (block in src["a.rs"]) if with_block else True}
+                    finally:
+                        P.close()
+                v.evaluated(("ignored-invisible", structured, directive, carried))
+                a, b = out[True], out[False]
+                if not a["ignored_untouched"] or (a["exit"], a["ids"], a["lock"]) != (b["exit"], b["ids"], b["lock"]):
+                    v.violation({"check": "IgnoredIsInvisible", "structured": structured, "carried": carried or "none"},
+                                "C14: a project with an ignored statement (%s, carrying %s) is numbered differently from the same "
+                                "project without it: %s vs %s" % (directive, carried or "no reference", a, b),
+                                {"with_ignored_statement": a, "without": b, "structured": structured, "directive": directive, "carried": carried})
+
+
 def c14(tier):
     v = Verdict("C14", tier)
     binary = common.build_breadlog()
+    ignored_is_invisible(binary, v)
     packs, solo_groups = directive_packs(v, tier)
     # in these files every statement is governed by the directive placement rules: any mismatch speaks about C14
     run_cases(binary, None, v, {"C14"}, "directives", packs=packs, relabel=lambda prop, r, text: "C14" if r is not None else prop,
